@@ -94,6 +94,16 @@ def gen_case(rng, idx):
         cot = {o: (prog.shapes[o], rand_vals(rng, numel(prog.shapes[o]))) for o in outs}
         apps.append({"what": "grad", "term": f"(TGrad {ajlib.c_natlist(outs)} {ajlib.c_natlist(ins)} true)",
                      "kind": 1, "in": cot, "args": (outs, ins)})
+        if len(ins) >= 2:
+            # Stack of per-output Grad pipelines whose key SETS coincide but whose key ORDERS differ (inputs
+            # listed in rotated orders) and whose values differ: rows must follow the keys, not the positions
+            so = [rng.choice(nonleaf) for _ in range(rng.randint(2, 3))]
+            orders = [ins[r % len(ins):] + ins[:r % len(ins)] for r in range(len(so))]
+            orders[-1] = list(reversed(ins))
+            term = "(TStack [" + "; ".join(
+                f"TComp (TGrad {ajlib.c_natlist([o])} {ajlib.c_natlist(od)} true) (TInit {ajlib.c_natlist([o])})"
+                for o, od in zip(so, orders)) + "])"
+            apps.append({"what": "stack_grad", "term": term, "kind": 0, "in": {}, "args": (so, orders)})
         for bsz in (rng.randint(1, 6), rng.randint(2, 5)):
             jc = {o: ((bsz,) + tuple(prog.shapes[o]), rand_vals(rng, bsz * numel(prog.shapes[o]))) for o in outs}
             for k in [None, 1, 2, bsz + 1]:
@@ -119,6 +129,10 @@ def model_source(cases):
                 outs, ins = a["args"][0], a["args"][1]
                 for o in outs:
                     for i in ins:
+                        Dp[(o, i)] = ajlib.D_nonleaf(prog, o, i)
+            if a["what"] == "stack_grad":
+                for o, od in zip(*a["args"]):
+                    for i in od:
                         Dp[(o, i)] = ajlib.D_nonleaf(prog, o, i)
         name = f"P{case['id']}"
         src += ajlib.c_prog(name, prog, None, Dp)
@@ -179,6 +193,16 @@ def reference(prog, a):
         outs, ins = a["args"]
         cots = [a["in"][o][1] for o in outs]
         return "Gradients", {i: (tuple(prog.shapes[i]), ajlib.exact_vjp(prog, outs, cots, i)) for i in ins}
+    if w == "stack_grad":
+        so, orders = a["args"]
+        res = {}
+        for i in orders[0]:
+            data = []
+            for o in so:
+                ones = [1] * numel(prog.shapes[o])
+                data.extend(ajlib.exact_vjp(prog, [o], [ones], i))
+            res[i] = ((len(so),) + tuple(prog.shapes[i]), data)
+        return "Jacobians", res
     if w == "jac":
         outs, ins, _ = a["args"]
         b = a["in"][outs[0]][0][0]
@@ -206,6 +230,10 @@ def apply_real(prog, ts, a, cache):
     if w == "aggregate":
         agg = Constant(torch.tensor([float(x) for x in a["agg"][1]], dtype=torch.float64))
         return Aggregate(agg, [ts[k] for k in a["args"]])(t_dict(Jacobians, a["in"], ts, a["order"]))
+    if w == "stack_grad":
+        so, orders = a["args"]
+        return Stack([Grad([ts[o]], [ts[i] for i in od], retain_graph=True) << Init([ts[o]])
+                      for o, od in zip(so, orders)])(EmptyTensorDict())
     if w == "grad":
         outs, ins = a["args"]
         return Grad([ts[o] for o in outs], [ts[i] for i in ins], retain_graph=True)(t_dict(Gradients, a["in"], ts))
